@@ -202,125 +202,76 @@ def run(ctx):
     ok = all(pairs.get(k) == {v} for k, v in want.items()) and set(pairs) == set(want) and other_raises > 0 and not bad_paths
     ctx.ob('T17.dispatch', e.fq, "style 'sh' -> args2sh, 'cmd' -> args2cmd, anything else -> ValueError (on every path)",
            ok, loc=e.loc, detail='%s %s' % ({k: sorted(map(str, v)) for k, v in pairs.items()}, bad_paths[:2]))
-    # args2cmd: backslash doubling (roles discovered: char loop variable, backslash buffer, output list)
+    # args2cmd: the quoting state machine lives in args2cmd itself or in a private per-argument helper it calls; the roles
+    # (character variable, backslash buffer, output list, quoting flag) are discovered there
     c = prog.func('strutils.args2cmd')
-    BUF = OUT = CH = None
-    for n in ast.walk(c.node):
-        if isinstance(n, ast.If) and isinstance(n.test, ast.Compare) and len(n.test.ops) == 1 and isinstance(n.test.ops[0], ast.Eq):
-            a, b = n.test.left, n.test.comparators[0]
-            if isinstance(b, ast.Name) and cval(a) == '\\':
-                a, b = b, a
-            if not (isinstance(a, ast.Name) and cval(b) == '\\'):
-                continue
-            for st in n.body:
-                for x in ast.walk(st):
-                    if isinstance(x, ast.Call) and isinstance(x.func, ast.Attribute) and x.func.attr == 'append' and x.args \
-                            and txt(x.args[0]) == a.id and isinstance(x.func.value, ast.Name):
-                        BUF, CH = x.func.value.id, a.id
-    for n in ast.walk(c.node):
-        if isinstance(n, (ast.Return, ast.Assign)) and isinstance(n.value, ast.Call) and isinstance(n.value.func, ast.Attribute) and \
-                n.value.func.attr == 'join' and n.value.args and isinstance(n.value.args[0], ast.Name):
-            OUT = n.value.args[0].id
+
+    def machine_roles(fn):
+        BUF = OUT = CH = None
+        for n in ast.walk(fn.node):
+            if isinstance(n, ast.If) and isinstance(n.test, ast.Compare) and len(n.test.ops) == 1 and isinstance(n.test.ops[0], ast.Eq):
+                a, b = n.test.left, n.test.comparators[0]
+                if isinstance(b, ast.Name) and cval(a) == '\\':
+                    a, b = b, a
+                if not (isinstance(a, ast.Name) and cval(b) == '\\'):
+                    continue
+                for st in n.body:
+                    for x in ast.walk(st):
+                        if isinstance(x, ast.Call) and isinstance(x.func, ast.Attribute) and x.func.attr == 'append' and x.args \
+                                and txt(x.args[0]) == a.id and isinstance(x.func.value, ast.Name):
+                            BUF, CH = x.func.value.id, a.id
+        # the output list: what the emissions of the character loop append to
+        if CH:
+            for n in ast.walk(fn.node):
+                if isinstance(n, ast.Call) and isinstance(n.func, ast.Attribute) and n.func.attr == 'append' and n.args and \
+                        txt(n.args[0]) == CH and isinstance(n.func.value, ast.Name) and n.func.value.id != BUF:
+                    OUT = n.func.value.id
+        return BUF, OUT, CH
+    Q = c
+    BUF, OUT, CH = machine_roles(c)
+    helper_call = None
+    if not (BUF and OUT and CH):
+        for n in ast.walk(c.node):
+            if isinstance(n, ast.Call) and isinstance(n.func, ast.Name) and n.func.id.startswith('_') and n.func.id in mod.functions \
+                    and len(n.args) == 1:
+                h = mod.functions[n.func.id]
+                r = machine_roles(h)
+                if all(r):
+                    Q, (BUF, OUT, CH), helper_call = h, r, n
     if not (BUF and OUT and CH):
         raise AnalysisError('anchor vanished: args2cmd backslash buffer / output list / char loop (%s, %s, %s)' % (BUF, OUT, CH))
 
     # quoting decision: the truth table of the `needquote` expression over probe arguments equals "empty, or contains a
     # blank or a tab" (the MS C runtime splits exactly at unquoted blanks and tabs; leading/trailing ones included)
-    nq = [n for n in ast.walk(c.node) if isinstance(n, ast.Assign) and len(n.targets) == 1 and isinstance(n.targets[0], ast.Name)
-          and any(isinstance(i, ast.If) and txt(i.test) == n.targets[0].id for i in ast.walk(c.node))
-          and isinstance(n.value, (ast.BoolOp, ast.Compare, ast.UnaryOp, ast.Call)) and n.lineno > c.node.lineno]
-    arg_loop_vars = [txt(n.target) for n in ast.walk(c.node) if isinstance(n, ast.For) and txt(n.target) != CH]
-    if not nq or not arg_loop_vars:
-        ctx.unknown('T7.needquote', c.fq, 'no quoting decision (`flag = <expr>` tested by `if flag:`) found', c.loc)
+    nq = [n for n in ast.walk(Q.node) if isinstance(n, ast.Assign) and len(n.targets) == 1 and isinstance(n.targets[0], ast.Name)
+          and any(isinstance(i, ast.If) and txt(i.test) == n.targets[0].id for i in ast.walk(Q.node))
+          and isinstance(n.value, (ast.BoolOp, ast.Compare, ast.UnaryOp, ast.Call)) and n.lineno > Q.node.lineno]
+    char_loops = [n for n in ast.walk(Q.node) if isinstance(n, ast.For) and txt(n.target) == CH]
+    ARGV = txt(char_loops[0].iter) if char_loops and isinstance(char_loops[0].iter, ast.Name) else None
+    if not nq or not ARGV:
+        ctx.unknown('T7.needquote', Q.fq, 'no quoting decision (`flag = <expr>` tested by `if flag:`) found', Q.loc)
     for n in nq:
         PROBES = ['', 'a', ' ', '\t', ' a', 'a ', 'a b', 'a\tb', '\ta', 'a\t', '  ', 'ab', '"', 'a"b', '\\', 'a\nb', '\n']
         wrong = []
         for s_ in PROBES:
             try:
-                got = bool(folder0.fold(n.value, env={arg_loop_vars[0]: s_}))
+                got = bool(folder0.fold(n.value, env={ARGV: s_}))
             except Unknown as ex:
                 raise AnalysisError('cannot fold the quoting decision `%s`: %s' % (txt(n.value), ex))
             want = (s_ == '') or (' ' in s_) or ('\t' in s_)
             if got != want:
                 wrong.append((s_, got))
-        ctx.ob('T7.needquote', c.fq, 'an argument is quoted exactly when it is empty or contains a blank or a tab (decided on the '
-               'expression `%s` over %d probe strings)' % (txt(n.value), len(PROBES)), not wrong, loc=loc(c, n),
+        ctx.ob('T7.needquote', Q.fq, 'an argument is quoted exactly when it is empty or contains a blank or a tab (decided on the '
+               'expression `%s` over %d probe strings)' % (txt(n.value), len(PROBES)), not wrong, loc=loc(Q, n),
                detail='disagrees on %r' % wrong[:4] if wrong else '')
 
-    # T30: the quoting loop as a transducer over character classes (rules/cmdquote.py)
+    # T30: the quoting loop as a transducer over character classes (rules/cmdquote.py); it also decides the per-argument reset
+    # of the buffer and the doubling of pending backslashes before quotes
     from rules import cmdquote
     if nq:
-        cmdquote.check(ctx, c, BUF, OUT, CH, nq[0].targets[0].id)
+        cmdquote.check(ctx, Q, BUF, OUT, CH, nq[0].targets[0].id, outer=c if Q is not c else None, helper_call=helper_call)
     else:
-        ctx.unknown('T30', c.fq, 'quoting flag not found', c.loc)
-
-    # the backslash buffer is per argument: it is (re)initialised inside the loop over the arguments
-    arg_loops = [n for n in ast.walk(c.node) if isinstance(n, ast.For) and txt(n.target) != CH and
-                 any(isinstance(x, ast.For) and txt(x.target) == CH for x in ast.walk(n))]
-    if not arg_loops:
-        raise AnalysisError('anchor vanished: args2cmd loop over the arguments')
-    resets = [st for st in arg_loops[0].body if isinstance(st, ast.Assign) and any(txt(t) == BUF for t in st.targets)
-              and isinstance(st.value, (ast.List, ast.Call))]
-    ctx.ob('T18.buf', c.fq, 'the pending-backslash buffer `%s` starts empty for every argument (reset inside the loop over the arguments)'
-           % BUF, bool(resets), loc=loc(c, arg_loops[0]))
-
-    def is_doubled(e, any_len=False):
-        """e is  <backslash> * len(BUF) * 2  in any association / order of the three factors"""
-        factors = []
-
-        def flat(x):
-            if isinstance(x, ast.BinOp) and isinstance(x.op, ast.Mult):
-                flat(x.left)
-                flat(x.right)
-            else:
-                factors.append(x)
-        flat(e)
-        if len(factors) != 3:
-            return False
-        kinds = sorted('bs' if cval(f) == '\\' else 'two' if cval(f) == 2 else
-                       'len' if (isinstance(f, ast.Call) and call_name(f) == 'len' and len(f.args) == 1 and
-                                 (txt(f.args[0]) == BUF or any_len)) else '?'
-                       for f in factors)
-        return kinds == ['bs', 'len', 'two']
-
-    class OneArg(Quiet):
-        def unroll(self, stmt):
-            if isinstance(stmt, ast.For) and txt(stmt.target) != CH:
-                return 1
-            return self.loop_unroll
-    w, paths = paths_of(prog, c, model=OneArg(prog))
-    n_close = n_quote = 0
-    for pth in paths:
-        ops = pth.ops
-        outs = [o for o in ops if o.kind == 'call' and isinstance(o.node.func, ast.Attribute) and txt(o.node.func.value) == OUT
-                and o.node.func.attr in ('append', 'extend') and o.node.args]
-        char_iters = [x for x in ops if x.kind == 'iter_next' and txt(x.node.target) == CH]
-        loop_end = max([x.seq for x in char_iters if x.info is False] or [-1])
-        for o in outs:
-            if o.node.func.attr != 'append':
-                continue
-            v = cval(w.expand(o.val.args[0]))
-            if v == '"' and loop_end >= 0 and o.seq > loop_end:
-                # closing quote of a quoted argument
-                n_close += 1
-                seg = [x for x in ops if loop_end < x.seq < o.seq]
-                exts = [x for x in seg if x in outs and x.node.func.attr == 'extend' and txt(x.node.args[0]) == BUF]
-                mult = [x for x in seg if x in outs and x.node.func.attr == 'append' and
-                        (is_doubled(x.node.args[0]) or is_doubled(w.expand(x.val.args[0]), any_len=True))]
-                empty = any(x.kind == 'test' and txt(x.node) == BUF and x.info is False for x in seg)
-                # the buffer may be extended once under `if BUF:` and once unconditionally, or doubled by multiplication
-                ok = len(exts) >= 2 or bool(mult) or (empty and len(exts) >= 1)
-                ctx.ob('T9.cmd', c.fq, 'pending backslashes are emitted twice (doubled) before the closing quote of a quoted argument',
-                       ok, loc=loc(c, o.node), path=pth.describe() if not ok else None)
-            if v == '\\"':
-                n_quote += 1
-                prev = [x for x in outs if x.seq < o.seq][-1:]
-                pe = txt(w.expand(prev[0].val.args[0])) if prev else ''
-                ok = bool(prev) and (is_doubled(prev[0].node.args[0]) or is_doubled(w.expand(prev[0].val.args[0]), any_len=True))
-                ctx.ob('T9.cmd', c.fq, 'an embedded quote is preceded by twice the pending backslashes and escaped', ok,
-                       loc=loc(c, o.node), detail=pe)
-    if n_close == 0 or n_quote == 0:
-        raise AnalysisError('args2cmd: closing-quote (%d) / embedded-quote (%d) emission sites not recognised' % (n_close, n_quote))
+        ctx.unknown('T30', Q.fq, 'quoting flag not found', Q.loc)
     # gzip
     gz = prog.func('strutils.gzip_bytes')
     gu = prog.func('strutils.gunzip_bytes')
@@ -368,5 +319,5 @@ def run(ctx):
                ok, loc=cil.loc, detail='returns %s' % txt(rv)[:80], path=pth.describe() if not ok else None)
     if n_r == 0:
         ctx.unknown('T17.compl', cil.fq, 'no return path', cil.loc)
-    for r, n in (('T12.form', 1), ('T12.shsafe', 60), ('T13.sh', 4), ('T17.dispatch', 1), ('T9.cmd', 2), ('T12.gzip', 2), ('T19c', 1)):
+    for r, n in (('T12.form', 1), ('T12.shsafe', 60), ('T13.sh', 4), ('T17.dispatch', 1), ('T12.gzip', 2), ('T19c', 1)):
         ctx.need(r, n)
